@@ -7,11 +7,11 @@
 package c12
 
 import (
-	"os"
 	"bytes"
 	"fmt"
 	"io"
 	"net/http"
+	"os"
 	"sort"
 	"strings"
 	"sync"
@@ -84,7 +84,7 @@ func gen(t *rapid.T) Script {
 			}
 		}
 		if len(upOpen) > 0 {
-			kinds = append(kinds, "upload_violate")
+			kinds = append(kinds, "upload_violate", "upload_cancel")
 		}
 		if !goneAway && nDown > 0 {
 			kinds = append(kinds, "client_goaway")
@@ -144,6 +144,14 @@ func gen(t *rapid.T) Script {
 		case "resume":
 			s.Ops = append(s.Ops, Op{Kind: "resume"})
 			paused = false
+		case "upload_cancel":
+			// the client sends a piece of the body and cancels the upload in the same breath: the handler's read
+			// of that piece and the stream's end race inside the server; whichever way it goes, every byte of the
+			// piece is credited back to the connection
+			u := pick(t, upOpen, "uc")
+			s.Ops = append(s.Ops, Op{Kind: "upload_cancel", Idx: u, N: rapid.SampledFrom([]int{5000, 8192, 16384}).Draw(t, "len")})
+			delete(upOpen, u)
+			delete(upHeld, u)
 		case "upload_violate":
 			// WINDOW_UPDATE with a zero increment on the upload's stream: a stream error (RFC 7540 6.9); the
 			// connection, and its flow control, go on
@@ -600,6 +608,24 @@ func exec(t *testing.T, s Script) (viol *vstat.Violation, classes map[string]boo
 					paused = false
 					peer.ResumeReads()
 				}
+			case "upload_cancel":
+				u := uploads[op.Idx]
+				if u.dead || u.ended || u.violated {
+					continue
+				}
+				total := min(int64(op.N), u.credit, connCredit)
+				if total > 0 {
+					peer.Fr.WriteData(u.sid, false, make([]byte, total))
+					u.credit -= total
+					u.sent += total
+					connCredit -= total
+					connSent += total
+				}
+				peer.Fr.WriteRSTStream(u.sid, xhttp2.ErrCodeCancel)
+				u.dead = true
+				if total > 4096 {
+					classes["upload-cancelled-right-behind-its-data:"+u.mode] = true
+				}
 			case "upload_violate":
 				u := uploads[op.Idx]
 				if u.dead || u.ended || u.violated {
@@ -756,7 +782,7 @@ func indexOf(ds []*download, d *download) int {
 }
 
 func TestServer(t *testing.T) {
-	col.Mandatory("blocked-by-window", "reset-mid-body", "negative-stream-window", "overflow->GOAWAY(FLOW_CONTROL)", "over-window-upload->FLOW_CONTROL_ERROR", "padded-upload", "several-downloads-share-connection-window", "upload-handler:close-then-hold", "upload-handler:read-none", "upload-handler:hold-then-read-all",
+	col.Mandatory("upload-cancelled-right-behind-its-data:read-all", "blocked-by-window", "reset-mid-body", "negative-stream-window", "overflow->GOAWAY(FLOW_CONTROL)", "over-window-upload->FLOW_CONTROL_ERROR", "padded-upload", "several-downloads-share-connection-window", "upload-handler:close-then-hold", "upload-handler:read-none", "upload-handler:hold-then-read-all",
 		"client-stops-reading", "stream-error-on-upload", "data-on-stream-whose-reset-is-still-queued", "graceful-goaway-with-streams-in-flight")
 	vstat.Run(t, vstat.Spec[Script]{Col: col, Quick: 1500, Thorough: 40000, Gen: gen,
 		Exec: func(s Script) *vstat.Violation {
